@@ -619,7 +619,7 @@ func main() {
 		return
 	}
 	r := rng.New(*seed)
-	maxSize, nRand, nToks, nProp, nFuzz, nLex, nRound := 5, 600, 600, 600, 6000, 2400, 800
+	maxSize, nRand, nToks, nProp, nFuzz, nLex, nRound := 5, 600, 600, 600, 6000, 4000, 1200
 	if *tier == "thorough" {
 		maxSize, nRand, nToks, nProp, nFuzz, nLex, nRound = 7, 8000, 8000, 8000, 300000, 40000, 8000
 	}
